@@ -380,6 +380,12 @@ impl KeyPair {
 				panic!("Unknown SignatureAlgorithm specified!");
 			};
 
+			let serialized_der = if is_pkcs8 {
+				serialized_der
+			} else {
+				pkcs8_der_of(&kind)?
+			};
+
 			Ok(KeyPair {
 				kind,
 				alg,
@@ -624,11 +630,35 @@ impl TryFrom<&PrivateKeyDer<'_>> for KeyPair {
 			(kind, alg)
 		};
 
+		#[cfg(feature = "aws_lc_rs")]
+		let serialized_der = match key {
+			PrivateKeyDer::Pkcs8(_) => key.secret_der().into(),
+			_ => pkcs8_der_of(&kind)?,
+		};
+		#[cfg(all(feature = "ring", not(feature = "aws_lc_rs")))]
+		let serialized_der = key.secret_der().into();
+
 		Ok(KeyPair {
 			kind,
 			alg,
-			serialized_der: key.secret_der().into(),
+			serialized_der,
 		})
+	}
+}
+
+/// Encodes a key pair that was loaded from a SEC1 or PKCS#1 document as PKCS#8,
+/// the format [`KeyPair::serialize_der`] and [`KeyPair::serialize_pem`] promise
+#[cfg(all(feature = "crypto", feature = "aws_lc_rs"))]
+fn pkcs8_der_of(kind: &KeyPairKind) -> Result<Vec<u8>, Error> {
+	use crate::ring_like::encoding::{AsDer, Pkcs8V1Der};
+
+	match kind {
+		KeyPairKind::Ec(kp) => Ok(kp.to_pkcs8v1()._err()?.as_ref().to_vec()),
+		KeyPairKind::Rsa(kp, _) => {
+			let der: Pkcs8V1Der<'static> = kp.as_der()._err()?;
+			Ok(der.as_ref().to_vec())
+		},
+		_ => Err(Error::CouldNotParseKeyPair),
 	}
 }
 
